@@ -605,6 +605,7 @@ func (s *MemoryBackend) ReadStartingWithUser(
 			}
 
 			matches = append(matches, t)
+			break // add the tuple once, even if the user filter lists the same user twice
 		}
 	}
 	sort.Slice(matches, func(i, j int) bool {
